@@ -1,6 +1,8 @@
 package evm
 
 import (
+	"bytes"
+
 	"github.com/Oneledger/protocol/storage"
 	ethcmn "github.com/ethereum/go-ethereum/common"
 )
@@ -61,6 +63,32 @@ func (cs *ContractStore) Iterate(prefix []byte, fn func(key []byte, value []byte
 		true,
 		fn,
 	)
+}
+
+// DeleteAll deletes every key under the prefix: the committed ones and the ones written
+// earlier in the current block, which are only in the block cache
+func (cs *ContractStore) DeleteAll(prefix []byte) {
+	prefixKey := append(append([]byte{}, cs.prefix...), prefix...)
+	// end of the range is the prefix with its last byte incremented
+	end := append([]byte{}, prefixKey...)
+	for i := len(end) - 1; i >= 0; i-- {
+		end[i]++
+		if end[i] != 0 {
+			break
+		}
+	}
+	keys := make([][]byte, 0)
+	collect := func(key []byte, _ []byte) bool {
+		if bytes.HasPrefix(key, prefixKey) {
+			keys = append(keys, append([]byte{}, key...))
+		}
+		return false
+	}
+	cs.State.IterateRange(prefixKey, end, true, collect)
+	cs.State.GetGasStore().GetIterable().Iterate(collect)
+	for _, key := range keys {
+		cs.State.Delete(key)
+	}
 }
 
 // AddressStoragePrefix returns a prefix to iterate over a given account storage.
